@@ -47,7 +47,22 @@ M = [
  ("M32", ["C06"], "shuttle-std/src/sync/mpsc.rs", "        let item = state.messages.remove(0);", "        let n = state.messages.len();\n        let item = state.messages.remove(n - 1);", "receive takes the newest message (LIFO)"),
  ("M33", ["C14", "C05"], "shuttle-std/src/sync/once.rs", "        StorageKey(once.id(), 0x2)", "        StorageKey(1, 0x2)", "all Once cells share one state slot"),
  ("M34", ["C01"], "shuttle-schedulers/src/replay.rs", "            ScheduleStep::Random => {\n                self.steps += 1;\n                self.data_source.next_u64()\n            }", "            ScheduleStep::Random => {\n                self.steps += 1;\n                self.data_source.next_u64() ^ 1\n            }", "replayed random draws differ in the lowest bit"),
+ ("M35", ["C09"], "shuttle-schedulers/src/dfs.rs", "self.levels.push((next, next_idx == runnable.len() - 1));", "self.levels.push((next, next_idx + 2 >= runnable.len()));", "DFS marks the second-to-last sibling as the last one (last child of a 3-way choice never explored)"),
+ ("M36", ["C09"], "shuttle-schedulers/src/dfs.rs", "self.max_iterations.map(|mi| self.iterations >= mi)", "self.max_iterations.map(|mi| self.iterations > mi)", "DFS runs one iteration more than max_iterations"),
+ ("M37", ["C10"], "shuttle-schedulers/src/random.rs", "        Some(runnable.choose(&mut self.rng).unwrap().id())", "        Some(runnable[(self.rng.next_u64() % 4) as usize % runnable.len()].id())", "random scheduler picks index (r mod 4) mod n: biased when n = 3"),
+ ("M38", ["C10"], "shuttle-schedulers/src/random.rs", "    pub fn new_from_seed(seed: u64, max_iterations: usize) -> Self {\n        let seed = seed_from_env(seed);\n", "    pub fn new_from_seed(seed: u64, max_iterations: usize) -> Self {\n        let _ = seed_from_env(seed);\n", "RandomScheduler ignores SHUTTLE_RANDOM_SEED"),
+ ("M39", ["C11"], "shuttle-schedulers/src/pct.rs", "if self.change_points.contains(&self.steps) || is_yielding {", "if is_yielding {", "PCT never lowers a priority at a change point"),
+ ("M40", ["C11"], "shuttle-schedulers/src/pct.rs", "let num_points = std::cmp::min(self.max_depth - 1, self.max_steps - 1);", "let num_points = std::cmp::min(self.max_depth, self.max_steps - 1);", "PCT uses depth change points instead of depth - 1"),
+ ("M41", ["C20"], "wrappers/parking_lot/parking_lot_impl/src/raw_rwlock.rs", "            // Roll back the upgradable slot so we don't leak it.\n            self.upgradable_sem.release(1);\n", "", "parking_lot try_lock_upgradable leaks the upgradable slot when the shared permit is unavailable"),
+ ("M42", ["C20"], "wrappers/parking_lot/parking_lot_impl/src/raw_rwlock.rs", "        trace!(\"downgrading parking_lot rwlock {:p} (exclusive -> shared)\", self);\n        self.sem.release(MAX_READERS - 1);", "        trace!(\"downgrading parking_lot rwlock {:p} (exclusive -> shared)\", self);\n        self.sem.release(MAX_READERS - 2);", "parking_lot downgrade keeps two permits (a later writer can never enter)"),
+ ("M43", ["C20"], "wrappers/collections/deterministic_collections/src/lib.rs", "        Self(StdHashSet::with_capacity_and_hasher(\n            capacity,\n            DETERMINISTIC_RANDOM_STATE,", "        Self(StdHashSet::with_capacity_and_hasher(\n            capacity,\n            RandomState::new(),", "deterministic HashSet::with_capacity uses a fresh RandomState"),
+ ("M44", ["C19"], "wrappers/tokio/impls/tokio/inner/src/sync/rwlock.rs", "    pub fn downgrade(self) -> RwLockReadGuard<'a, T> {\n        let RwLockWriteGuard { sem, data, .. } = self;\n        let to_release = self.permits_acquired - 1;", "    pub fn downgrade(self) -> RwLockReadGuard<'a, T> {\n        let RwLockWriteGuard { sem, data, .. } = self;\n        let to_release = self.permits_acquired;", "tokio RwLock downgrade releases every permit (writers can enter beside the downgraded reader)"),
+ ("M45", ["C19"], "wrappers/tokio/impls/tokio/inner/src/sync/watch.rs", "        let inner = self.shared.value.blocking_read();\n        self.version = self.shared.state.load().version();\n        Ref { inner }", "        let inner = self.shared.value.blocking_read();\n        Ref { inner }", "watch borrow_and_update does not mark the value seen"),
+ ("M46", ["C19"], "wrappers/tokio/impls/tokio/inner/src/sync/watch.rs", "            drop(lock);\n        }\n        self.shared.notify_rx.notify_waiters();\n        true", "            drop(lock);\n        }\n        true", "watch send does not notify waiting receivers"),
+ ("M47", ["C19"], "wrappers/tokio/impls/tokio/inner/src/sync/oneshot.rs", "            Err(_) => Err(TryRecvError::Closed),", "            Err(_) => Err(TryRecvError::Empty),", "oneshot try_recv reports Empty on a closed channel"),
 ]
+
+ALL_OCCURRENCES = {"M20"}
 
 NOTES = {
  "M12": "equivalent mutant: the releasing arrival removes its own leader token in the same step in which it inserts it, so the epoch value is never observable",
@@ -83,7 +98,7 @@ def main():
         if src.count(a) < 1:
             keep[mid] = {"id": mid, "desc": desc, "file": path, "status": "patch-does-not-apply"}
             print(mid, "patch does not apply"); continue
-        open(p, "w").write(src.replace(a, b, 1))
+        open(p, "w").write(src.replace(a, b) if mid in ALL_OCCURRENCES else src.replace(a, b, 1))
         t0 = time.time()
         rec = {"id": mid, "desc": desc, "file": path, "checks": {}, "status": "ok"}
         for c in checks:
